@@ -101,6 +101,11 @@ impl<'a> GLWEToMut for GLWE<&'a mut [u8]> {
     open spec fn gm_limb(&self, i: int, j: int) -> Seq<i64> { self.data.limb(i, j) }
     #[verifier::external_body] fn to_mut(&mut self) -> (r: GLWE<&mut [u8]>) { unimplemented!() }
 }
+// I-GLWE: the shared view of an owner shows the same shape and limbs as its mutable view (in-place operations read `res` through to_ref())
+pub open spec fn mut_ref_agree<R: GLWEToMut>(r: &R) -> bool {
+    r.gref().data.n == r.gm_n() && r.gref().data.cols == r.gm_cols() && r.gref().data.size == r.gm_size() && r.gref().base2k == r.gm_base2k() && (r.gm_wf() ==> r.gref().data.wf())
+    && forall|i: int, j: int| #[trigger] r.gref().data.limb(i, j) == r.gm_limb(i, j)
+}
 // GLWENormalize (verified against the HAL in unit glwe_ops): column i of res is the normalisation of column i of a -- every limb of it is written from the limbs of that column
 pub trait GLWENormalize<BE: Backend> {
     spec fn s_glwe_norm_tmp(&self) -> int;
